@@ -113,6 +113,17 @@ def run(chk: core.Check, tier: str, seed: int) -> None:
     # ((a|a)*b against a^22 bc: about a second of backtracking here, about 3 s for a^24)
     for pat, n in (("(a|a)*b", 22), ("(a|a)*b", 23), ("(a|aa)*b", 30)):
         recs.append(impl.rec_total(jp, f"$[?match(@, '{pat}')]", ["a" * n + "bc", "ab"]))
+    # strings as a JSON decoder really produces them: json.loads('"\\ud800"') is a str with an unpaired surrogate - as the
+    # pattern, the subject, a member name, a comparand (outside the value model, so only totality is judged)
+    import json as _json  # noqa: PLC0415
+    lone = [_json.loads(s) for s in ('"\\ud800"', '"a\\udfffb"', '"\\udc00\\ud800"', '"[\\ud83d]"', '"\\ud800*"', '"a|\\udbff"')]
+    for s in lone:
+        doc = [s, "a", {"p": s, "s": "a"}, {"p": "a", "s": s}, {s: 1, "p": "a", "s": "b"}, [s, s]]
+        for q in ("$[?match(@, $[0])]", "$[?search(@, $[0])]", "$[?match(@.s, @.p)]", "$[?search(@.s, @.p)]", "$[?match($[0], 'a')]",
+                  "$[?search($[0], '.')]", "$[?@ == $[0]]", "$[?@ < $[0]]", "$[?@.p >= @.s]", "$[?length(@) == 1]", "$[4].*", "$[4][?@]",
+                  "$..*", "$[?@[0] == @[1]]", "$[?value(@.p) != $[0]]", "$[?count(@.*) == 3]"):
+            recs.append(impl.rec_total(jp, q, doc))
+            recs.append(impl.rec_total(jp, q, doc, paths=True))
     # the nondeterministic mode is total as well
     from .. import probes  # noqa: PLC0415
     nd = probes.make_env(jp, [], [], nondeterministic=True)
